@@ -65,6 +65,8 @@ def random_threshold(rng):
         return rng.randint(1, 1000) / 1000.0
     if r < 0.72:
         return rng.randint(1, 10000) / 10000.0
+    if r < 0.74:
+        return rng.choice([1e-9, 1e-6, 1e-300, 1e-160, 5e-324])
     if r < 0.78:
         return 1.0
     return max(1e-6, min(1.0, rng.random()))
@@ -381,8 +383,8 @@ def random_join_call(rng, api=None, tok=None, n_jobs_pool=(1, 1, 1, 2, 3), **tkw
     call['l_out_attrs'] = random_out_attrs(rng, L, 'lid', 'lattr')
     call['r_out_attrs'] = random_out_attrs(rng, R, 'rid', 'rattr')
     if rng.random() < 0.3:
-        call['l_out_prefix'] = rng.choice(['left_', 'L.', 'l_', '', 'ltable.'])
-        call['r_out_prefix'] = rng.choice(['right_', 'R.', 'r_', 'rtable.'])
+        call['l_out_prefix'] = rng.choice(['left_', 'L.', 'l_', '', 'ltable.', 'l.*', '(l)', '$l_'])
+        call['r_out_prefix'] = rng.choice(['right_', 'R.', 'r_', 'rtable.', 'r[', '^r+'])
     call['out_sim_score'] = rng.random() < 0.75
     call['n_jobs'] = rng.choice(list(n_jobs_pool))
     if rng.random() < 0.06:
@@ -393,6 +395,12 @@ def random_join_call(rng, api=None, tok=None, n_jobs_pool=(1, 1, 1, 2, 3), **tkw
         call['show_progress'] = True
     if rng.random() < 0.06:
         call['threshold_np'] = True       # hand the threshold over as a numpy scalar
+    if rng.random() < 0.2:
+        call['omit_defaults'] = True      # do not pass arguments that equal their default
+    if rng.random() < 0.06:
+        call['out_attrs_as'] = 'tuple'
+    if rng.random() < 0.05:
+        call['n_jobs_as'] = 'numpy'
     if call['threshold'] == 1.0 and rng.random() < 0.5:
         call['threshold'] = 1          # an int is a valid threshold too
     return call
